@@ -30,9 +30,11 @@
      * mem inserts into a full table (shard) evict the entry with the earliest expiry, live or not
        (finding action, guarded by AllowEvictLive); expired entries stay in the table until taken over.
    With all guards FALSE the model is the implementation with these steps repaired (evict expired entries
-   only, else grow; compare-and-delete; no TTL cut by non-owners) and must satisfy MutualExclusion and OnlyOwnerReleases outright.
-   With a guard TRUE the model is the code as it is; `tainted` records that a finding step happened and the
-   invariants are asserted for untainted behaviours, so that any *other* way to break them stays visible.  *)
+   only, else grow; compare-and-delete; no TTL cut by non-owners) and must satisfy MutualExclusion and
+   OnlyOwnerReleases outright.  With a guard TRUE the finding step is possible *in addition* to the repaired
+   one (so the same model accepts the code as it is and the code once repaired); `taints` records which
+   finding steps happened and the invariants are asserted for untainted behaviours, so that any *other* way
+   to break them stays visible.  Exhaustive runs follow a behaviour up to its first finding step.  *)
 EXTENDS Integers, Sequences, FiniteSets, TLC, Json
 
 CONSTANTS Owners,             \* lock ids (strings)
@@ -51,11 +53,12 @@ VARIABLES variant, cap,       \* configuration, fixed by Init
           flag,               \* [Owners -> [Keys -> BOOLEAN]]  client side LockKey.IsLockOwner (redis only; read by Unlock)
           call,               \* [Owners -> call record]  the public call in progress
           grant,              \* ghost: [Owners -> [Keys -> expiry or 0]]  what each owner was told it holds
-          tainted,            \* ghost: a finding action was taken
+          taints,             \* ghost: the finding actions taken so far (set of "evict", "delete", "shorten")
           hist                \* ghost: history of calls (atomic model; hidden by VIEW)
 
-vars == <<variant, cap, tab, flag, call, grant, tainted, hist>>
-view == <<variant, cap, tab, flag, call, grant, tainted>>
+vars == <<variant, cap, tab, flag, call, grant, taints, hist>>
+tainted == taints # {}
+view == <<variant, cap, tab, flag, call, grant, taints>>
 
 None  == "-"
 Floor == 0 - FloorN
@@ -91,11 +94,13 @@ MemInsert(st, k, e) ==
       codeVictims == {v \in present : Cardinality({j \in present \ {v} : t[j].x >= t[v].x}) >= m - 1}
       expired == {v \in present : ~Live(t[v])}
       put(v, tnt) == [tab |-> [[t EXCEPT ![v] = Empty] EXCEPT ![k] = e], taint |-> tnt]
-  IN IF n < st.cap THEN {[tab |-> [t EXCEPT ![k] = e], taint |-> FALSE]}
-     ELSE IF AllowEvictLive
-          THEN {put(v, Live(t[v])) : v \in codeVictims}
-          ELSE IF expired # {} THEN {put(v, FALSE) : v \in expired}      \* repaired: only expired entries go
-               ELSE {[tab |-> [t EXCEPT ![k] = e], taint |-> FALSE]}      \* ... else the table grows
+      grow    == [tab |-> [t EXCEPT ![k] = e], taint |-> {}]
+      \* repaired: only expired entries go, else the table grows
+      good    == IF expired # {} THEN {put(v, {}) : v \in expired} ELSE {grow}
+      \* as it is: the sampled entry with the earliest expiry goes, live or not
+      asIs    == {put(v, IF Live(t[v]) THEN {"evict"} ELSE {}) : v \in codeVictims}
+  IN IF n < st.cap THEN {grow}
+     ELSE IF AllowEvictLive THEN good \cup asIs ELSE good
 
 MemLockStep(st, o) ==                         \* L2InMemoryCache.Lock, one key per step
   LET c == st.c IN
@@ -103,7 +108,7 @@ MemLockStep(st, o) ==                         \* L2InMemoryCache.Lock, one key p
   THEN {IF c.op = "DualLock" THEN [st EXCEPT !.c.ph = "vchk", !.c.ks = c.all] ELSE Ret(st, TRUE, None)}
   ELSE LET k == Head(c.ks)  e == st.tab[k]  new == [o |-> o, x |-> c.ttl] IN
        IF e.o = None                          \* loadOrStore stored
-       THEN {[st EXCEPT !.tab = r.tab, !.taint = st.taint \/ r.taint, !.c.ks = Tail(@),
+       THEN {[st EXCEPT !.tab = r.tab, !.taint = st.taint \cup r.taint, !.c.ks = Tail(@),
                         !.c.acq = Append(@, k), !.c.gx[k] = new.x] : r \in MemInsert(st, k, new)}
        ELSE IF ~(e.x > 0)                     \* expired: compareAndSwap (also over an own expired entry)
        THEN {[st EXCEPT !.tab[k] = new, !.c.ks = Tail(@), !.c.acq = Append(@, k), !.c.gx[k] = new.x]}
@@ -175,19 +180,22 @@ RedisGetExStep(st, o) ==                      \* client.IsLockedTTL: GETEX every
   LET c == st.c IN                            \* the TTL of every live key is set, whoever owns it
   IF c.ks = <<>> THEN {Ret(st, c.ok, None)}
   ELSE LET k == Head(c.ks)  e == st.tab[k]  mine == Live(e) /\ e.o = o
-           shortens == Live(e) /\ ~mine /\ c.ttl < e.x      \* a non-owner cuts the holder's TTL (finding)
-           nx == IF ~Live(e) \/ (shortens /\ ~AllowForeignShorten) THEN e.x ELSE c.ttl
-       IN {[st EXCEPT !.tab[k].x = nx, !.taint = st.taint \/ (shortens /\ AllowForeignShorten),
-                      !.fl[k] = mine, !.c.ok = c.ok /\ mine,
-                      !.c.gx[k] = IF mine THEN c.ttl ELSE 0, !.c.ks = Tail(@)]}
+           shortens == Live(e) /\ ~mine /\ c.ttl < e.x           \* a non-owner cuts the holder's TTL (finding)
+           upd(nx, tnt) == [st EXCEPT !.tab[k].x = nx, !.taint = st.taint \cup tnt,
+                                      !.fl[k] = mine, !.c.ok = c.ok /\ mine,
+                                      !.c.gx[k] = IF mine THEN c.ttl ELSE 0, !.c.ks = Tail(@)]
+       IN IF ~Live(e) THEN {upd(e.x, {})}
+          ELSE IF ~shortens THEN {upd(c.ttl, {})}
+          ELSE {upd(e.x, {})} \cup (IF AllowForeignShorten THEN {upd(c.ttl, {"shorten"})} ELSE {})
 
 RedisDelStep(st, o) ==                        \* client.Unlock: one DEL of the flagged keys
   LET c == st.c
       D       == {k \in Range(c.all) : st.fl[k]}
       foreign == {k \in D : Live(st.tab[k]) /\ st.tab[k].o # o}
-      del     == IF AllowForeignDelete THEN D ELSE D \ foreign      \* repaired: compare-and-delete
-  IN {Ret([st EXCEPT !.tab = [k \in Keys |-> IF k \in del THEN Empty ELSE st.tab[k]],
-                     !.taint = st.taint \/ (AllowForeignDelete /\ foreign # {})], TRUE, None)}
+      del(S, tnt) == Ret([st EXCEPT !.tab = [k \in Keys |-> IF k \in S THEN Empty ELSE st.tab[k]],
+                                   !.taint = st.taint \cup tnt], TRUE, None)
+  IN {del(D \ foreign, {})}                                        \* repaired: compare-and-delete
+     \cup (IF AllowForeignDelete /\ foreign # {} THEN {del(D, {"delete"})} ELSE {})   \* as it is: delete by key
 
 StepSet(st, o) ==
   LET ph == st.c.ph IN
@@ -219,7 +227,7 @@ NewCall(v, op, K, ttl) ==
   LET ks == IF v = "mem" /\ op \in {"Lock", "DualLock"} THEN SortSeq(K, LAMBDA a, b : a < b) ELSE K IN
   [Idle EXCEPT !.op = op, !.all = ks, !.ks = ks, !.ttl = ttl, !.ph = FirstPhase(v, op)]
 
-Local(o, c) == [tab |-> tab, fl |-> flag[o], c |-> c, taint |-> tainted, v |-> variant, cap |-> cap]
+Local(o, c) == [tab |-> tab, fl |-> flag[o], c |-> c, taint |-> taints, v |-> variant, cap |-> cap]
 
 \* what the owner is told by the returned call
 GrantAfter(g, o, c) ==
@@ -243,7 +251,7 @@ Init == /\ variant \in Variants /\ cap \in Caps
         /\ flag = [o \in Owners |-> [k \in Keys |-> FALSE]]
         /\ call = [o \in Owners |-> Idle]
         /\ grant = [o \in Owners |-> NoGx]
-        /\ tainted = FALSE /\ hist = <<>>
+        /\ taints = {} /\ hist = <<>>
 
 \* one unit of time passes (at any point, also in the middle of calls); Redis drops keys at expiry
 Dec0(x) == Max(x - 1, 0)
@@ -253,29 +261,29 @@ Tick == /\ tab' = [k \in Keys |-> IF tab[k].o = None THEN Empty
         /\ grant' = [o \in Owners |-> [k \in Keys |-> Dec0(grant[o][k])]]
         /\ call' = [o \in Owners |-> [call[o] EXCEPT !.gx = [k \in Keys |-> Dec0(@[k])],
                                                      !.nx = IF call[o].ph = "tref" THEN Max(@ - 1, Floor) ELSE @]]
-        /\ UNCHANGED <<variant, cap, flag, tainted>>
+        /\ UNCHANGED <<variant, cap, flag, taints>>
 
 \* ---- fine grained model
 Begin(o, op, K, ttl) ==
   /\ call[o].ph = "idle"
   /\ call' = [call EXCEPT ![o] = NewCall(variant, op, K, ttl)]
   /\ grant' = GrantBegin(grant, o, op, K, ttl)
-  /\ UNCHANGED <<variant, cap, tab, flag, tainted, hist>>
+  /\ UNCHANGED <<variant, cap, tab, flag, taints, hist>>
 
 Step(o) ==
   /\ call[o].ph \notin {"idle", "ret"}
   /\ \E s \in StepSet(Local(o, call[o]), o) :
         /\ tab' = s.tab /\ flag' = [flag EXCEPT ![o] = s.fl] /\ call' = [call EXCEPT ![o] = s.c]
-        /\ tainted' = s.taint
+        /\ taints' = s.taint
   /\ UNCHANGED <<variant, cap, grant, hist>>
 
 Return(o, ok, other) ==
   /\ call[o].ph = "ret" /\ call[o].ok = ok /\ call[o].other = other
   /\ grant' = GrantAfter(grant, o, call[o])
   /\ call' = [call EXCEPT ![o] = Idle]
-  /\ UNCHANGED <<variant, cap, tab, flag, tainted, hist>>
+  /\ UNCHANGED <<variant, cap, tab, flag, taints, hist>>
 
-FTick == Tick /\ UNCHANGED hist
+FTick == ~tainted /\ Tick /\ UNCHANGED hist
 
 \* ---- the same with the purely local steps merged into their neighbours (exhaustive model): the invocation is
 \* merged with the call's first table access, the return with its last one, phase changes with the access before.
@@ -285,18 +293,18 @@ RECURSIVE Norm(_, _)
 Norm(s, o) == IF Bookkeeping(s) THEN Norm(CHOOSE n \in StepSet(s, o) : TRUE, o) ELSE s
 
 Apply(o, s, g) ==
-  /\ tab' = s.tab /\ flag' = [flag EXCEPT ![o] = s.fl] /\ tainted' = s.taint
+  /\ tab' = s.tab /\ flag' = [flag EXCEPT ![o] = s.fl] /\ taints' = s.taint
   /\ IF s.c.ph = "ret" THEN call' = [call EXCEPT ![o] = Idle] /\ grant' = GrantAfter(g, o, s.c)
                         ELSE call' = [call EXCEPT ![o] = s.c] /\ grant' = g
   /\ UNCHANGED <<variant, cap, hist>>
 
 MBegin(o, op, K, ttl) ==
-  /\ call[o].ph = "idle"
+  /\ ~tainted /\ call[o].ph = "idle"
   /\ \E s \in StepSet(Norm(Local(o, NewCall(variant, op, K, ttl)), o), o) :
         Apply(o, Norm(s, o), GrantBegin(grant, o, op, K, ttl))
 
 MStep(o) ==
-  /\ call[o].ph # "idle"
+  /\ ~tainted /\ call[o].ph # "idle"
   /\ \E s \in StepSet(Local(o, call[o]), o) : Apply(o, Norm(s, o), grant)
 
 \* ---- for traces of interleaved executions: invocation / one table access (= one Redis command) / return
@@ -304,14 +312,14 @@ TBegin(o, op, K, ttl) ==
   /\ call[o].ph = "idle"
   /\ call' = [call EXCEPT ![o] = Norm(Local(o, NewCall(variant, op, K, ttl)), o).c]
   /\ grant' = GrantBegin(grant, o, op, K, ttl)
-  /\ UNCHANGED <<variant, cap, tab, flag, tainted, hist>>
+  /\ UNCHANGED <<variant, cap, tab, flag, taints, hist>>
 
 TStep(o) ==
   /\ call[o].ph \notin {"idle", "ret"}
   /\ \E s \in StepSet(Local(o, call[o]), o) :
         LET n == Norm(s, o) IN
         /\ tab' = n.tab /\ flag' = [flag EXCEPT ![o] = n.fl] /\ call' = [call EXCEPT ![o] = n.c]
-        /\ tainted' = n.taint
+        /\ taints' = n.taint
   /\ UNCHANGED <<variant, cap, grant, hist>>
 
 \* ---- a whole call without interleaving (serial executions)
@@ -321,7 +329,7 @@ CallRec(o, op, K, ttl, ok, other) == [o |-> o, op |-> op, ks |-> K, ttl |-> ttl,
 Outcomes(o, op, K, ttl) == RunSet({Local(o, NewCall(variant, op, K, ttl))}, o)
 
 Effect(o, op, K, ttl, s) ==
-  /\ tab' = s.tab /\ flag' = [flag EXCEPT ![o] = s.fl] /\ tainted' = s.taint
+  /\ tab' = s.tab /\ flag' = [flag EXCEPT ![o] = s.fl] /\ taints' = s.taint
   /\ grant' = GrantAfter(GrantBegin(grant, o, op, K, ttl), o, s.c)
   /\ UNCHANGED <<variant, cap, call>>
 
@@ -331,43 +339,42 @@ ACall(o, op, K, ttl, ok, other) ==
 
 \* the same, recording the history (behaviour generation), result not given but computed
 AStep(o, op, K, ttl) ==
-  /\ Len(hist) < MaxHist
+  /\ ~tainted /\ Len(hist) < MaxHist
   /\ \A p \in Owners : call[p].ph = "idle"
   /\ \E s \in Outcomes(o, op, K, ttl) :
         /\ Effect(o, op, K, ttl, s)
         /\ hist' = Append(hist, CallRec(o, op, K, ttl, s.c.ok, s.c.other))
 
-ATick == /\ Len(hist) < MaxHist /\ Tick
+ATick == /\ ~tainted /\ Len(hist) < MaxHist /\ Tick
          /\ hist' = Append(hist, CallRec(None, "Tick", <<>>, 0, TRUE, None))
 
 \* ... and without recording it (exhaustive atomic model)
 AStepNoHist(o, op, K, ttl) ==
-  /\ \A p \in Owners : call[p].ph = "idle"
+  /\ ~tainted /\ \A p \in Owners : call[p].ph = "idle"
   /\ \E s \in Outcomes(o, op, K, ttl) : Effect(o, op, K, ttl, s)
   /\ UNCHANGED hist
 
 \* key sequences tried by the exhaustive models: every non-empty subset, ascending
-SeqOf(S) == SortSeq(CHOOSE s \in [1..Cardinality(S) -> S] : \A i, j \in 1..Cardinality(S) : i # j => s[i] # s[j],
-                    LAMBDA a, b : a < b)
+RECURSIVE SeqOf(_)
+SeqOf(S) == IF S = {} THEN <<>>
+            ELSE LET m == CHOOSE x \in S : \A y \in S : x <= y IN <<m>> \o SeqOf(S \ {m})
 KeySeqs == {SeqOf(S) : S \in SUBSET Keys \ {{}}}
 
 \* IsLocked and Unlock take no duration
 TTLsOf(op) == IF op \in {"IsLocked", "Unlock"} THEN {0} ELSE TTLs
 
-\* Behaviours are followed up to the first finding step (tainted): what the code does after one is judged per trace
-\* by the trace specification, not explored here (the ghost `grant` is meaningless once a lock has been lost).
-FNext == /\ ~tainted
-         /\ \/ \E o \in Owners, op \in Ops, K \in KeySeqs : \E ttl \in TTLsOf(op) : MBegin(o, op, K, ttl)
-            \/ \E o \in Owners : MStep(o)
-            \/ FTick
+\* Behaviours are followed up to the first finding step (every action of the exhaustive models is guarded by
+\* ~tainted): what the code does after one is judged per trace by the trace specification, not explored here
+\* (the ghost `grant` is meaningless once a lock has been lost).
+FNext == \/ \E o \in Owners, op \in Ops, K \in KeySeqs : \E ttl \in TTLsOf(op) : MBegin(o, op, K, ttl)
+         \/ \E o \in Owners : MStep(o)
+         \/ FTick
 
-ANext == /\ ~tainted
-         /\ \/ \E o \in Owners, op \in Ops, K \in KeySeqs : \E ttl \in TTLsOf(op) : AStep(o, op, K, ttl)
-            \/ ATick
+ANext == \/ \E o \in Owners, op \in Ops, K \in KeySeqs : \E ttl \in TTLsOf(op) : AStep(o, op, K, ttl)
+         \/ ATick
 
-ANoHistNext == /\ ~tainted
-               /\ \/ \E o \in Owners, op \in Ops, K \in KeySeqs : \E ttl \in TTLsOf(op) : AStepNoHist(o, op, K, ttl)
-                  \/ FTick
+ANoHistNext == \/ \E o \in Owners, op \in Ops, K \in KeySeqs : \E ttl \in TTLsOf(op) : AStepNoHist(o, op, K, ttl)
+               \/ FTick
 
 FSpec == Init /\ [][FNext]_vars
 ASpec == Init /\ [][ANext]_vars
@@ -397,6 +404,6 @@ TypeOK == /\ variant \in {"mem", "redis"} /\ cap \in Nat \ {0}
 Sym == Permutations(Owners)
 \* behaviour emission (atomic model with history, hist hidden by VIEW): TLC evaluates an invariant once per distinct
 \* state, so this prints one shortest call sequence for every distinct reachable state
-EmitAll == PrintT(<<"BEH", ToJson([variant |-> variant, cap |-> cap, tainted |-> tainted,
+EmitAll == PrintT(<<"BEH", ToJson([variant |-> variant, cap |-> cap, tainted |-> tainted, taints |-> taints,
                                    broken |-> ~(MutualExclusionRaw /\ OnlyOwnerReleasesRaw), hist |-> hist])>>)
 =============================================================================
